@@ -13,6 +13,14 @@ def framing(timeout=900):
              what="real video_source_thread, one frame, camera shape fully symbolic (all sample types, plane stride up to 2^37): committed header size = 8*ceil((96+sz)/8), equals the mapped size, shape = camera's, header 8-aligned",
              bounds=dict(frames=1, strides_planes="0..2^37", types="all 8", dims="any 32-bit"))
 
+def framing2(timeout=900):
+    h = framing(timeout)
+    h.name = "source_framing_shape_change"
+    h.defines = ["MODE=2", "SCN=0", "NMAX=2", "TWO_FRAMES=1"]
+    h.unwind = 4
+    h.what = "real video_source_thread, TWO frames, the camera's shape changes between them (frame 0: 1-byte image, frame 1: fully symbolic shape): each frame is sized and described by its own shape"
+    return h
+
 def aligned_steps(tier):
     R = 3
     hs = []
@@ -23,7 +31,7 @@ def aligned_steps(tier):
     return hs
 
 def harnesses(tier, findings):
-    hs = [framing()] + aligned_steps(tier)
+    hs = [framing(), framing2()] + aligned_steps(tier)
     return hs
 
 META = dict(
